@@ -235,6 +235,7 @@ void DocumentBuilder::proc_edge_begin(const char* from, const char* to, const bo
 {
     symbol_t fid, tid;
 
+    currentEdge = nullptr;  // the labels of an edge that cannot be added must not land on the previous edge
     if (!resolve(from, fid) || (!fid.get_type().is_location() && !fid.get_type().is_branchpoint())) {
         handle_error(TypeException{"$No_such_location_or_branchpoint_(source)"});
         push_frame(frame_t::create(frames.top()));  // dummy frame for upcoming popFrame
@@ -253,7 +254,11 @@ void DocumentBuilder::proc_edge_begin(const char* from, const char* to, const bo
 
 void DocumentBuilder::proc_edge_end(const char* from, const char* to) { popFrame(); }
 
-void DocumentBuilder::proc_select(const char* id) { addSelectSymbolToFrame(id, currentEdge->select, position); }
+void DocumentBuilder::proc_select(const char* id)
+{
+    // an edge that could not be added has no select frame of its own, only the dummy frame on the stack
+    addSelectSymbolToFrame(id, currentEdge ? currentEdge->select : frames.top(), position);
+}
 
 void DocumentBuilder::proc_guard()
 {
